@@ -102,7 +102,7 @@ def enumerated_stuck(seed, thorough):
                 for cls in itertools.product(cs, repeat=n):
                     for k in (1, 2):
                         for dset in itertools.combinations(range(1, n + 1), k):
-                            if r.random() > (1.0 if n <= 2 else (0.35 if not thorough else (1.0 if n <= 3 else 0.1))):
+                            if r.random() > (1.0 if n <= 2 else (0.25 if not thorough else (1.0 if n <= 3 else 0.1))):
                                 continue
                             deaf = [i in dset for i in range(1, n + 1)]
                             op, k1 = stuck_order(r, range(1, P + 1), deaf)
@@ -225,6 +225,41 @@ def notsynced_schedules():
     ]
 
 
+# Finding C19-cancel-waits-for-deaf-node (pending_fixes/C19-cancel-waits-for-deaf-node.diff): provide() notices the
+# caller's cancellation only when the next result arrives; while EVERY running request of the stage ignores its context
+# the cancelled call stays blocked.  The generic families validate with CancelMode "either"; this dedicated family
+# validates with the property in full (MultiClientTrace_prompt.cfg), on the pinned tree its first three schedules are
+# accepted only by the deviation cfg (CancelMode "coded").  Remove CANCEL_DEV once the fix is committed.
+CANCEL_DEV = [("C19-cancel-waits-for-deaf-node", "MultiClientTrace_coded.cfg")]
+
+
+def canceldeaf_schedules():
+    rel = lambda *ids: [{"ev": "NodeDone", "i": i} for i in ids]
+    can = lambda how: [{"ev": "CancelCaller", "how": how}]
+    cfg = lambda P, B, style, out, deaf: [{"ev": "Cfg", "P": P, "B": B, "style": style, "out": out,
+                                           "deaf": [i in deaf for i in range(1, P + B + 1)]}, {"ev": "Call"}]
+    return [
+        # the only primary is stuck, the caller cancels, the node is released a (virtual) second later
+        cfg(1, 0, "att", ["ok"], {1}) + can("cancel") + rel(1),
+        # both primaries stuck (one for good), submit-style, the caller's deadline passes; nobody is released
+        cfg(2, 0, "submit", ["ok", "hang"], {1, 2}) + can("deadline"),
+        # fallback stage: the primaries are unavailable, the only fallback is stuck
+        cfg(2, 1, "att", ["timeout", "refused", "ok"], {3}) + rel(1, 2) + can("cancel") + rel(3),
+        # must pass also on the pinned tree: next to the stuck node one that honours its context is running
+        cfg(2, 0, "att", ["ok", "hang"], {1}) + can("cancel") + rel(1),
+        cfg(2, 0, "submit", ["e500", "ok"], {1}) + can("deadline"),
+        cfg(1, 2, "sync", ["syncing503", "hang", "ok"], {3}) + rel(1) + can("cancel") + rel(3),
+    ]
+
+
+def shift(t, i, d=1):
+    """events i.. happen d virtual seconds later"""
+    for e in t[i:]:
+        if "t" in e:
+            e["t"] += d
+    return t
+
+
 def mutators():
     def wrong_by(t):
         for e in t:
@@ -247,8 +282,53 @@ def mutators():
                 done = {x["i"] for x in t if x.get("ev") == "NodeDone"}
                 rest = [n for n in t[i - 1]["started"] if n not in done]
                 if rest:
-                    t.insert(i, {"ev": "NodeDone", "i": rest[0], "started": t[i - 1]["started"]})
+                    shift(t, i)
+                    t.insert(i, {"ev": "NodeDone", "i": rest[0], "started": t[i - 1]["started"], "t": t[i]["t"]})
                     return t
+        return None
+
+    def stuck_nodes(t, upto):
+        """deaf nodes invoked and not released before event `upto`"""
+        done = {x["i"] for x in t[:upto] if x.get("ev") == "NodeDone"}
+        st = [x["started"] for x in t[:upto] if "started" in x]
+        return [n for n in (st[-1] if st else []) if t[0]["deaf"][n - 1] and n not in done]
+
+    def return_after_stuck_release(t):
+        # the successful answer comes back only when the node that ignores its context has been released
+        for i, e in enumerate(t):
+            if e.get("ev") == "Return" and e["kind"] == "ok" and t[i - 1].get("ev") == "NodeDone":
+                d = [n for n in stuck_nodes(t, i) if t[0]["out"][n - 1] != "hang"]
+                if d:
+                    shift(t, i)
+                    t.insert(i, {"ev": "NodeDone", "i": d[0], "started": t[i - 1]["started"], "t": t[i]["t"]})
+                    return t
+        return None
+
+    def cancel_after_stuck_release(t):
+        # a cancelled call (a node that honours its context is running) returns only when the stuck node is released
+        for i, e in enumerate(t):
+            if e.get("ev") == "Return" and t[i - 1].get("ev") == "CancelCaller":
+                d = [n for n in stuck_nodes(t, i) if t[0]["out"][n - 1] != "hang"]
+                heard = [n for n in t[-1]["cancelled"] if not t[0]["deaf"][n - 1]]
+                if d and heard:
+                    shift(t, i)
+                    t.insert(i, {"ev": "NodeDone", "i": d[0], "started": t[i - 2]["started"], "t": t[i]["t"]})
+                    return t
+        return None
+
+    def return_never_with_stuck(t):
+        # the call is still blocked at the end of the schedule (the stuck node was never released)
+        for i, e in enumerate(t):
+            if e.get("ev") == "Return" and e["kind"] == "ok" and stuck_nodes(t, i):
+                del t[i]
+                return t
+        return None
+
+    def return_time_late(t):
+        for e in t:
+            if e.get("ev") == "Return":
+                e["t"] += 1
+                return t
         return None
 
     def spurious_fallback(t):
@@ -269,8 +349,8 @@ def mutators():
             if e.get("ev") == "NodeDone" and e["i"] <= P and len(e["started"]) > P and len(t[i - 1].get("started", [])) == P \
                     and all(v in VARIANTS["unavail"] for v in t[0]["out"][:P]):
                 e["started"] = t[i - 1]["started"]
-                return t[:i + 1] + [{"ev": "Return", "kind": "err", "by": e["i"]},
-                                    {"ev": "End", "started": e["started"], "cancelled": []}]
+                return t[:i + 1] + [{"ev": "Return", "kind": "err", "by": e["i"], "t": e["t"]},
+                                    {"ev": "End", "started": e["started"], "cancelled": [], "t": e["t"] + 1}]
         return None
 
     def not_cancelled(t):
@@ -288,15 +368,19 @@ def mutators():
                 done = {x["i"] for x in t[:i + 1] if x.get("ev") == "NodeDone"}
                 if any(t[0]["out"][j - 1] == "ok" and j not in done for j in range(1, P + 1)) and \
                         not any(x.get("ev") == "CancelCaller" for x in t[:i]):
-                    return t[:i + 1] + [{"ev": "Return", "kind": "err", "by": e["i"]},
-                                        {"ev": "End", "started": e["started"], "cancelled": []}]
+                    return t[:i + 1] + [{"ev": "Return", "kind": "err", "by": e["i"], "t": e["t"]},
+                                        {"ev": "End", "started": e["started"], "cancelled": [], "t": e["t"] + 1}]
         return None
     return [("returned value attributed to another node", wrong_by), ("Return event dropped", drop_return),
             ("success returned only after a further node was released", late_return),
             ("fallback invoked although a primary succeeded", spurious_fallback),
             ("no fallback although all primary failures are unavailability", no_fallback),
             ("a still running worker not cancelled after the return", not_cancelled),
-            ("failure reported while a successful primary is pending", fail_with_ok_pending)]
+            ("failure reported while a successful primary is pending", fail_with_ok_pending),
+            ("success returned only after the node that ignores its context was released", return_after_stuck_release),
+            ("cancelled call returns only after the stuck node was released", cancel_after_stuck_release),
+            ("call with a successful answer still blocked behind a stuck node at the end", return_never_with_stuck),
+            ("Return stamped with a later virtual time than the deciding stimulus", return_time_late)]
 
 
 def run(tier, seed):
@@ -304,13 +388,18 @@ def run(tier, seed):
     thorough = tier == "thorough"
     # stage 0: design check (fallback decision as coded), liveness under fairness, the property-level ("free")
     # variant that trace validation uses, and two controls that MUST be violated
-    for cfg in (["MultiClientMC.cfg", "MultiClientMC_live.cfg"] if thorough else
-                ["MultiClientMC_quick.cfg", "MultiClientMC_live_quick.cfg"]) + ["MultiClientMC_free.cfg"]:
+    for cfg in (["MultiClientMC.cfg", "MultiClientMC_live.cfg", "MultiClientMC_prompt.cfg"] if thorough else
+                ["MultiClientMC_quick.cfg", "MultiClientMC_live_quick.cfg"]) + \
+            ["MultiClientMC_free.cfg" if thorough else "MultiClientMC_free_quick.cfg"]:
         r = vlib.tlc("C19", FAMILY, "MultiClientMC", cfg, timeout=1500)
         vlib.require_mc_ok(r, cfg)
         o.add_mc(cfg[:-4], r)
     for cfg, inv, what in (("MultiClientMC_anyerr.cfg", "FallbackRule", "fallback on any error (4xx too)"),
-                           ("MultiClientMC_failfast.cfg", "FailOnlyIfAllFail", "fork-join with fail-fast")):
+                           ("MultiClientMC_failfast.cfg", "FailOnlyIfAllFail", "fork-join with fail-fast"),
+                           ("MultiClientMC_waitall.cfg", "PromptReturn",
+                            "the return waits for every started request (forkjoin WithWaitOnCancel)"),
+                           ("MultiClientMC_canceldeaf.cfg", "CancelPromptInv",
+                            "as coded: cancellation noticed only at the next result (finding C19-cancel-waits-for-deaf-node)")):
         r = vlib.tlc("C19", FAMILY, "MultiClientMC", cfg, timeout=600)
         if r.violation != inv:
             raise vlib.Infra("design-spec control failed: '%s' variant not caught by %s: %s" % (what, inv, r.summary()))
@@ -321,27 +410,36 @@ def run(tier, seed):
     rv = vlib.rng(seed, "c19var")
     scheds = [concretise(rv, s) for s in g]
     enum = enumerated(seed, thorough)
+    enum_stuck = enumerated_stuck(seed, thorough)
     rnd = random_schedules(seed, 20000 if thorough else 2500)
     # stage 2+3
     vlib.conformance(o, FAMILY, "MultiClientTrace", "MultiClientTrace.cfg", "c19", scheds, tag="tlcgen")
     vlib.conformance(o, FAMILY, "MultiClientTrace", "MultiClientTrace.cfg", "c19", enum, tag="enum")
+    vlib.conformance(o, FAMILY, "MultiClientTrace", "MultiClientTrace.cfg", "c19", enum_stuck, tag="enumstuck")
     vlib.conformance(o, FAMILY, "MultiClientTrace", "MultiClientTrace.cfg", "c19", rnd, tag="random")
     vlib.conformance(o, FAMILY, "MultiClientTrace", "MultiClientTrace.cfg", "c19", notsynced_schedules(), tag="notsynced",
                      dev_cfgs=DEV_CFGS)
+    vlib.conformance(o, FAMILY, "MultiClientTrace", "MultiClientTrace_prompt.cfg", "c19", canceldeaf_schedules(),
+                     tag="canceldeaf", dev_cfgs=CANCEL_DEV, max_report=6)
     # binding negative controls on recorded traces
     tr = vlib.split_traces(vlib.read_ndjson(vlib.workdir("C19") + "/trace_random.ndjson"))
     vlib.binding_selftest(o, FAMILY, "MultiClientTrace", "MultiClientTrace.cfg", tr, mutators())
-    if len(o.selftests) < 2 + 7 and not o.violations:
+    if len(o.selftests) < 4 + 11 and not o.violations:
         raise vlib.Infra("binding self-test: some negative control found no applicable trace")
     return vlib.finish(o, "model_checking", RULE,
-                       ["beacon nodes are gated mocks that honour their context (a node that ignores cancellation is out of scope); "
-                        "quiescence = testing/synctest: every goroutine of the call durably blocked",
+                       ["beacon nodes are gated mocks; each either honours its request context or ignores it (then it answers "
+                        "only when the schedule releases it, possibly never); quiescence = testing/synctest: every goroutine of "
+                        "the call durably blocked; promptness = the Return is recorded right after, and at the virtual time of, "
+                        "the deciding stimulus (first successful result / last failure / caller's cancellation)",
+                        "generic families leave open whether a cancelled call returns while EVERY running request ignores its "
+                        "context (finding C19-cancel-waits-for-deaf-node); the dedicated family 'canceldeaf' demands it",
                         "error values are built as go-eth2-client's http service returns them (api.Error, url.Error, net.OpError, "
                         "syscall errno, ErrNotActive); 500 without syncing text, 4xx and 429 count as 'other'",
                         "fallback is REQUIRED when all primary failures are of an unavailability class, FORBIDDEN when none is (and "
                         "none is an unsuccessful output), either when mixed; which failed node's error is reported and which ctx "
                         "error a cancelled call reports is left open",
-                        "design check exhaustive for P<=3 primaries, B<=2 fallbacks (quick: B<=1); conformance up to P=6, B=3"])
+                        "design check exhaustive for P<=3 primaries, B<=2 fallbacks (quick: B<=1), at most 2 (quick: 1) nodes that ignore "
+                        "their context; conformance up to P=6, B=3, any number of such nodes"])
 
 
 def replay(path):
